@@ -167,7 +167,8 @@ def run(ctx):
         if fn.is_closure or fn.self_adt not in prog.list_adts or fn.family == 'seg':
             continue
         b = fn.body
-        reads = [c for c in b.calls if c.callee_name() in ('get_unchecked', 'get_unchecked_mut') and len(c.args) == 2 and buffer_of(prog, c.args[0]) == ('buffer',)]
+        # (a bounds-checked `buffer[i]` is held to the same standard: out of bounds it panics instead of reading wild, and C10 forbids both)
+        reads = [c for c in b.calls if c.callee_name() in ('get_unchecked', 'get_unchecked_mut', 'index', 'index_mut') and len(c.args) == 2 and buffer_of(prog, c.args[0]) == ('buffer',)]
         if not reads:
             continue
         searches = [c for c in b.calls if c.callee_name() in SEARCHES and c.args and buffer_of(prog, c.args[0]) == ('buffer',)]
